@@ -380,8 +380,14 @@ impl Network for ChoiceNet {
                     deliver(buffers, packet, now + base, now, &self.rec, ridx);
                     sh.rebinds += 1;
                     if let (Some(sock), Some(addr)) = (sh.client_socket.clone(), sh.client_addr) {
+                        // alternate between the original address A and one other address B: the second
+                        // rebind returns to the (validated) first path
                         let mut new = addr;
-                        new.set_port(addr.port().wrapping_add(100 * sh.rebinds as u16));
+                        if sh.rebinds % 2 == 1 {
+                            new.set_port(addr.port().wrapping_add(100));
+                        } else {
+                            new.set_port(addr.port().wrapping_sub(100));
+                        }
                         sock.rebind(new);
                         sh.client_addr = Some(new);
                     }
